@@ -175,8 +175,11 @@ def strat_diag(tier):
     return st.fixed_dictionaries({
         'M': st.integers(1, 6), 'N': st.integers(4, 200 if tier == 'thorough' else 120), 'phi': st.sampled_from([0.0, 0.3, 0.7, 0.95, -0.5]),
         'seed': st.integers(0, 10 ** 6), 'shift': st.sampled_from([0.0, 0.5, 3.0]),
-        'a': st.one_of(st.integers(-8, 8).filter(lambda k: k != 0).map(lambda k: math.copysign(2.0 ** abs(k), k)), st.floats(0.01, 100.0), st.floats(-100.0, -0.01)),
-        'b': st.floats(-1e3, 1e3, allow_nan=False), 'perm_seed': st.integers(0, 10 ** 6),
+        # scales over many orders of magnitude (a = +-2^k, k in -60..60, or generic); the shift is b0 * |a| so that it never
+        # swamps the chain in floating point
+        'a': st.one_of(st.tuples(st.sampled_from([-1.0, 1.0]), st.integers(-60, 60)).map(lambda t: t[0] * 2.0 ** t[1]),
+                       st.floats(0.01, 100.0), st.floats(-100.0, -0.01), st.floats(1e-9, 1e-3), st.floats(1e3, 1e9)),
+        'b': st.floats(-10.0, 10.0, allow_nan=False), 'perm_seed': st.integers(0, 10 ** 6),
     })
 
 
@@ -239,7 +242,7 @@ def run_diag(case):
     if border:
         labels.append('borderline-truncation')
     # affine map
-    y = case['a'] * ch + case['b']
+    y = case['a'] * ch + case['b'] * abs(case['a'])
     e2 = float(eff_sample_size(y))
     r2 = float(gelman_rubin_statistic(y))
     _, border2 = ref_ess(y)
@@ -264,7 +267,7 @@ CHECK = Check(
           'finite doubles incl. -0.0, 1e-300, 5e-324, |x| up to 1e150, saved to any sequence of pickle/json/csv and read back with the '
           'standard library; bolfi: chains (1-5 x 2-40 x 1-4) whose entries encode (chain, iteration, parameter) with every warm-up '
           'length; diagnostics: 1-6 AR(1) chains of length 4-120 (thorough 200) vs naive reference formulas, affine maps a x + b with '
-          'a = +-2^k or generic, chain permutations. Non-trivial: >= 2 parameters in non-alphabetical order; >= 2 chains with warm-up > 0; '
+          'a = +-2^k (k in -60..60) or generic over 1e-9..1e9, chain permutations. Non-trivial: >= 2 parameters in non-alphabetical order; >= 2 chains with warm-up > 0; '
           '>= 2 chains (diagnostics).'),
     parts=[Part('sample', run_sample, strategy=strat_sample, examples={'quick': 500, 'thorough': 32000}),
            Part('bolfi-sample', run_bolfi, strategy=strat_bolfi, examples={'quick': 300, 'thorough': 16000}),
